@@ -13,3 +13,6 @@ def run(ctx):
         'Hash is observed as the byte stream fed to a recording Hasher (i8 element type); unwind 26 covers the 24-byte buffer loop',
     ]
     core.run_kani_set(ctx, ['c14_'], bound='full width per instantiation (see assumptions)', harness_timeout=600)
+    if ctx.tier == 'thorough':
+        # thorough tier: the same harnesses decided a second time by an independent SAT solver (kissat instead of CaDiCaL)
+        core.run_kani_set(ctx, ['c14_'], bound='full width per instantiation (see assumptions)', harness_timeout=1800, solver='kissat')
